@@ -34,7 +34,7 @@ Theorem C08_non_recursing_override_hides : forall v k s cs,
 Proof. exact non_recursing_override_hides. Qed.
 Print Assumptions C08_non_recursing_override_hides.
 
-(* ... so the property is refuted for incomplete visitors (the shape of no-invalid-regexp's visit_call_expr) *)
+(* ... so the property fails for any incomplete visitor (generic witness: a call-like node whose override inspects only itself) *)
 Theorem C08_visit_incomplete_hides :
   exists v c t, equivariant v /\ neutral v c /\ visit v t <> [] /\ visit v (plug c t) = [].
 Proof. exact visit_incomplete_hides. Qed.
@@ -105,20 +105,25 @@ Print Assumptions C08_handler_embedding.
 
 (* ---- obligations on the tables regenerated from the source on this run *)
 
-(* the context-free rules without a known defect: every overridden visit method recurses *)
+(* EVERY claimed context-free rule: every overridden visit method recurses (no escape list) *)
 Theorem C08_context_free_rules_recurse :
-  forallb (fun r => forallb recurses_all (entries_of r)) complete_rules = true.
+  forallb (fun r => forallb recurses_all (entries_of r)) context_free_rules = true.
 Proof. exact context_free_rules_recurse. Qed.
 Print Assumptions C08_context_free_rules_recurse.
 
-(* every override of a context-free rule recurses, or is one of the KNOWN non-recursing ones; none is unclassified *)
-Theorem C08_context_free_rules_recurse_or_known : forall r e,
+Theorem C08_context_free_rules_recurse_spec : forall r e,
   In r context_free_rules -> In e visit_table -> v_rule e = r ->
-  v_class e = RecAll \/ v_class e = RecByDesign \/
-  (v_class e = RecNone /\ In (v_rule e, v_method e) known_non_recursing).
-Proof. exact context_free_rules_spec. Qed.
-Print Assumptions C08_context_free_rules_recurse_or_known.
+  v_class e = RecAll \/ v_class e = RecByDesign.
+Proof. exact context_free_rules_recurse_spec. Qed.
+Print Assumptions C08_context_free_rules_recurse_spec.
 
+Theorem C08_no_non_recursing_override_in_context_free_rules :
+  filter (fun e => mem (v_rule e) context_free_rules && negb (recurses_all e)) visit_table = [].
+Proof. exact no_non_recursing_override_in_context_free_rules. Qed.
+Print Assumptions C08_no_non_recursing_override_in_context_free_rules.
+
+(* the analyses (scope-analysis = deno_ast dependency, control-flow-analysis): their non-recursing overrides are the listed ones;
+   scope-analysis.visit_param is the one that hides (known finding, dependency) *)
 Theorem C08_analysis_non_recursing_known :
   forallb (fun e => match v_class e with RecNone => pair_mem (v_rule e, v_method e) known_analysis_non_recursing | _ => true end)
           analysis_rows = true.
